@@ -365,7 +365,7 @@ class RadiDict:
                 node[IDX] = node[IDX].replace(key0_to_del, '')
                 del node[OFFSET + kidx]
                 self._try_merge(node)
-            if not (node[DATA] or node[IDX]):
+            if not (node[DATA] or node[HOOKS] or node[IDX]):
                 key0_to_del = node[KEY][0]
             else:
                 break
